@@ -70,7 +70,7 @@ def obligations(tier, seed):
         sks = hv + gr + lit[::5] + c17[::6] + pointless[::2] + loopv
     # hand-written per-rule programs (the shapes that the harvested snippets cannot reach), through the pipeline
     fam = rulefam.skeletons()
-    sks = sks + (rnd.sample(fam, 30) if quick else fam)
+    sks = sks + (rnd.sample(fam, 30) if quick else fam) + rulefam.layout_skeletons()
     obs = []
     full = set(id(s) for s in (rnd.sample(sks, 6) if quick else rnd.sample(sks, 60)))
     base = [OPTS[0], OPTS[8]]  # safe / unsafe with defaults
